@@ -245,6 +245,8 @@ def rule_zero(ctx, M, u, rule, expect_kinds):
         probs.append("a child poll is reachable in the zero-length world")
     for b, w in res.divzero:
         probs.append("zero-length world reaches a division by the container length")
+    for b, w in res.panics:
+        probs.append("zero-length world panics (every branch on the way is decided by the empty input)")
     if probs:
         for p in sorted(set(probs)):
             ctx.fail(rule, u.where, p, site=u.body.span)
